@@ -209,7 +209,7 @@ func (s *script) write() bool {
 	}
 	b := make([]byte, n)
 	for i := range b {
-		b[i] = byte((s.wTotal+i)*7 + (s.wTotal+i)/251)
+		b[i] = tcpx.WPat(s.wTotal + i)
 	}
 	got := s.c.Write(b)
 	res := fmt.Sprintf("RCount %d", got)
@@ -218,12 +218,12 @@ func (s *script) write() bool {
 	} else {
 		s.wTotal += got
 	}
-	return s.snapObs("EWrite "+netx.ZList(b), res)
+	return s.snapObs("EWrite "+tcpx.ZL(b), res)
 }
 
 func (s *script) read() bool {
 	v, e := s.c.Read()
-	res := "RBytes " + netx.ZList(v)
+	res := "RBytes " + tcpx.ZL(v)
 	if e != 0 {
 		res = fmt.Sprintf("RErr (%d)", e)
 	}
@@ -429,7 +429,7 @@ func runScript(seed uint64, idx int, mix string, nev int, kinds map[string]int) 
 	plen := 400 + r.Intn(1200)
 	s.peer = make([]byte, plen)
 	for i := range s.peer {
-		s.peer[i] = byte(i*13 + i/256 + 1)
+		s.peer[i] = tcpx.PPat(i)
 	}
 	s.maxEnd = c.ISS + 1
 	init := c.Snap()
@@ -442,7 +442,7 @@ func runScript(seed uint64, idx int, mix string, nev int, kinds map[string]int) 
 	if cfg.V6 {
 		v6 = 1
 	}
-	line := fmt.Sprintf("CTrace [%d;%d;%d;%d;%d] %s %s [%s]", c.ISS, c.IRS, cfg.PeerMSS, cfg.MTU, v6, netx.ZList(s.peer), tcpx.CoqState(init), strings.Join(s.steps, ";"))
+	line := fmt.Sprintf("CTrace [%d;%d;%d;%d;%d] %s %s [%s]", c.ISS, c.IRS, cfg.PeerMSS, cfg.MTU, v6, tcpx.ZL(s.peer), tcpx.CoqState(init), strings.Join(s.steps, ";"))
 	c.EP.Close()
 	return line, nil
 }
